@@ -75,6 +75,14 @@ impl Story {
     ) -> Result<(), StoryError> {
         let is_async_time_limited = millisecs_limit_async > 0.0;
 
+        // A rejected call must leave the story untouched: check before the
+        // nesting counter and the async flag are modified.
+        if !self.async_continue_active && !self.can_continue() {
+            return Err(StoryError::InvalidStoryState(
+                "Can't continue - should check can_continue before calling Continue".to_owned(),
+            ));
+        }
+
         self.recursive_continue_count += 1;
 
         // Doing either:
@@ -82,11 +90,6 @@ impl Story {
         // - Starting async run-through
         if !self.async_continue_active {
             self.async_continue_active = is_async_time_limited;
-            if !self.can_continue() {
-                return Err(StoryError::InvalidStoryState(
-                    "Can't continue - should check can_continue before calling Continue".to_owned(),
-                ));
-            }
 
             self.get_state_mut().set_did_safe_exit(false);
 
